@@ -255,7 +255,7 @@ func (t *c20tr) verdict(list []ast.Stmt, ind string, k string) string {
 		if len(x.Results) == 3 {
 			last := t.c.src(x.Results[2])
 			if last == "nil" {
-				return ind + ".admit\n"
+				return ind + ".accept\n"
 			}
 			if _, isCall := x.Results[2].(*ast.CallExpr); isCall && t.c.src(x.Results[0]) == "nil" {
 				if strings.Contains(last, "ErrTxDecode") {
